@@ -96,7 +96,12 @@ PortfolioSplit(g, p) ==           \* setup_split_optim_problem: interval grids, 
   /\ lastop' = "split"
   /\ depth' = depth + 1 /\ UNCHANGED saved
 
-Optimize ==                       \* optimise the last portfolio problem and extract the output tables
+\* Optimising the last portfolio problem is a function of that problem alone.  The output tables (extract_output) are
+\* computed from the problem, the result AND the asset objects; they are specified only while every asset still refers
+\* to the grid the problem was built on (an asset set up on another grid in between describes another problem: the
+\* listed property speaks about the problems set-up calls return, not about tables extracted with re-targeted objects).
+OutputDefined == \A a \in Assets : agrid[a] = pgrid
+Optimize ==                       \* optimise the last portfolio problem; extract the output tables where OutputDefined
   /\ depth < MaxDepth /\ lastop # None
   /\ depth' = depth + 1 /\ UNCHANGED <<agrid, pgrid, rest, form, lastop, saved>>
 
